@@ -118,6 +118,12 @@ def main(argv):
         finally:
             signal.alarm(0)
         rec["wall"] = round(time.monotonic() - t0, 4)
+        hfail = [f for f in rec.get("failures", []) if ":HARNESS:" in f["sig"]]
+        if hfail:
+            rec["harness_error"] = "exception raised outside pgmpy (scenario code): " + json.dumps(hfail[0], default=core._default)[:1500]
+            rec["failures"] = []
+            emit(rec)
+            continue
         # failures: classify, minimise unknown ones
         for f in rec.get("failures", []):
             f["known"] = f["sig"] in known
